@@ -43,6 +43,13 @@ TEMPLATES = {
     "dalsegno_plain": dict(sections="ABC", marks=[("segno", "B"), ("dalsegno", "C")], maximal="ABCBC", minimal="ABC", n_variants=None),
     "dacapo_rep": dict(sections="ABC", marks=[("repeat", "A", "A"), ("dacapo", "C")], maximal="AABCAABC", minimal="ABC", n_variants=None),
     "dacapo_fine": dict(sections="AB", marks=[("fine", "A"), ("dacapo", "B")], maximal="ABA", minimal=None, n_variants=None),
+    # three endings (two repeats sharing their start) and an ending with comma-separated numbers
+    "volta3": dict(sections="ABCD", marks=[("repeat", "A", "B"), ("repeat", "A", "C"), ("ending", "1", "B"), ("ending", "2", "C"), ("ending", "3", "D")],
+                   maximal="ABACAD", minimal="AD", n_variants=None),
+    "volta_comma": dict(sections="ABCD", marks=[("repeat", "A", "B"), ("ending", "1,2", "B"), ("ending", "3", "C")],
+                        maximal="ABABACD", minimal="ACD", n_variants=None),
+    # a slur and a tuplet between two notes inside the repeated section: every visit has its own pair of brackets
+    "repeat_mid_inner_slur": dict(sections="ABC", marks=[("repeat", "B", "B")], maximal="ABBC", minimal="ABC", n_variants=2, inner="B", inner_kind="slur"),
 }
 
 
@@ -68,7 +75,11 @@ def build(template, L, q=4):
             part.add(n, start, start + 1)
             n2 = S.Note("CDEFGAB"[i], 4, id="m" + name, voice=1, staff=1)
             part.add(n2, start + 1, end)
-            n.tie_next, n2.tie_prev = n2, n
+            if t.get("inner_kind") == "slur":
+                part.add(S.Slur(start_note=n, end_note=n2), start, end)
+                part.add(S.Tuplet(start_note=n, end_note=n2), start, end)
+            else:
+                n.tie_next, n2.tie_prev = n2, n
             part.add(S.GraceNote("grace", "CDEFGAB"[i], 5, id="g" + name, voice=1, staff=1), start, start)
         else:
             part.add(n, start, end)
@@ -157,6 +168,17 @@ def check_unfolded(new, orig_part, bounds, visits, update_ids, label, template=N
         ids = [n.id for n in allnotes]
         check(len(set(ids)) == len(ids) or not update_ids, label + ": duplicate note ids after unfolding", sorted(ids))
         firsts = [n for n in got if n.id[1] in inner]
+        if TEMPLATES[template].get("inner_kind") == "slur":
+            for cls, st, sp in ((S.Slur, "slur_starts", "slur_stops"), (S.Tuplet, "tuplet_starts", "tuplet_stops")):
+                objs = sorted(new.iter_all(cls), key=lambda o: o.start.t)
+                check(len(objs) == n_inner, label + ": one %s per visit of the section" % cls.__name__, len(objs), n_inner)
+                for a, b, o in zip(firsts, seconds, objs):
+                    check(o.start_note is a and o.end_note is b, label + ": %s of a visit does not join the notes of that visit" % cls.__name__,
+                          getattr(o.start_note, "id", None), getattr(o.end_note, "id", None), a.id, b.id)
+                    check(len(getattr(a, st)) == 1 and getattr(a, st)[0] is o and len(getattr(b, sp)) == 1 and getattr(b, sp)[0] is o,
+                          label + ": %s lists of the copied notes do not hold the copy's own bracket" % cls.__name__, a.id, b.id)
+                    check(o.start.t == a.start.t and o.end.t == b.end.t, label + ": %s extent is not the visit's extent" % cls.__name__, o.start.t, o.end.t)
+            firsts = []
         for a, b in zip(firsts, seconds):
             check(a.tie_next is b and b.tie_prev is a, label + ": tie inside a repeated section does not stay inside its visit",
                   a.id, getattr(a.tie_next, "id", None), a.end.t, getattr(getattr(a.tie_next, "start", None), "t", None))
@@ -191,7 +213,7 @@ def check_unfolded(new, orig_part, bounds, visits, update_ids, label, template=N
     for sl in new.iter_all(S.Slur):
         for ref in (sl.start_note, sl.end_note):
             if ref is not None:
-                check(any(ref is g for g in got), label + ": slur reference leaves the copy")
+                check(any(ref is g for g in allnotes), label + ": slur reference leaves the copy")
         if sl.start_note is not None and sl.end_note is not None:
             check(sl.start_note.start.t <= sl.end_note.start.t, label + ": slur runs backwards in the copy")
     return total
@@ -248,10 +270,12 @@ def make(template, update_ids=True):
 
 def _inst(tier):
     out = [{"template": "plain"}, {"template": "repeat_mid"}, {"template": "volta"}, {"template": "repeat_start", "update_ids": False},
-           {"template": "dacapo_fine"}, {"template": "nested"}, {"template": "repeat_mid_inner"}, {"template": "segno_coda"}, {"template": "volta_tie"}, {"template": "dacapo_plain"}]
+           {"template": "dacapo_fine"}, {"template": "nested"}, {"template": "repeat_mid_inner"}, {"template": "segno_coda"}, {"template": "volta_tie"}, {"template": "dacapo_plain"},
+           {"template": "volta3"}, {"template": "volta_comma"}, {"template": "repeat_mid_inner_slur"}]
     if tier != "quick":
         out += [{"template": "two_repeats"}, {"template": "plain_tie"}, {"template": "repeat_mid_tie"}, {"template": "repeat_mid", "update_ids": False}, {"template": "volta", "update_ids": False},
-                {"template": "dacapo_coda"}, {"template": "segno_coda", "update_ids": False}, {"template": "dalsegno_plain"}, {"template": "dacapo_rep"}]
+                {"template": "dacapo_coda"}, {"template": "segno_coda", "update_ids": False}, {"template": "dalsegno_plain"}, {"template": "dacapo_rep"},
+                {"template": "volta3", "update_ids": False}, {"template": "volta_comma", "update_ids": False}, {"template": "repeat_mid_inner_slur", "update_ids": False}]
     return out
 
 
@@ -262,8 +286,8 @@ HARNESSES = [
                  "ScoreVariant.add_segment", "ScoreVariant.create_variant_part", "score.new_part_from_path",
                  "score.unfold_part_maximal", "score.unfold_part_minimal", "score.iter_unfolded_parts",
                  "music.update_note_ids_after_unfolding", "ReplaceRefMixin.replace_refs"],
-      bounds="templates: no repeat, simple repeat at the start / in the middle, nested repeats, a repeated section holding a tie and a grace note, two independent repeats, first/second "
-             "ending, plain da capo / dal segno, da capo al fine, dal segno al coda and da capo al coda (minimal unfolding); 2-4 sections with symbolic lengths 1..10^4 divisions; one note per section, a tie "
+      bounds="templates: no repeat, simple repeat at the start / in the middle, nested repeats, a repeated section holding a tie and a grace note or a slur and a tuplet, two independent repeats, first/second "
+             "ending, three endings (two repeats sharing their start), an ending numbered '1,2', plain da capo / dal segno, da capo al fine, dal segno al coda and da capo al coda (minimal unfolding); 2-4 sections with symbolic lengths 1..10^4 divisions; one note per section, a tie "
              "over the first and a slur over the last section boundary; update_ids on/off",
-      outside="the maximal unfolding of coda layouts, three endings, division or signature changes inside sections"),
+      outside="the maximal unfolding of coda layouts, four or more endings, division or signature changes inside sections"),
 ]
